@@ -50,6 +50,8 @@ def run_check(spec, tier, seed, log=print):
     for j in jobs:
         j.setdefault("seed", seed)
         j.setdefault("module", spec.sym_module)
+    # longest first: more symbolic cells, then longer documents
+    jobs.sort(key=lambda j: (-len(j["params"].get("holes", [])), -len(j["params"].get("skeleton", ""))))
     # profile a few shards for functions_encoded
     step = max(1, len(jobs) // 8)
     for i in range(0, len(jobs), step):
